@@ -15,7 +15,7 @@ for d in sorted(glob.glob(os.path.join(ROOT, 'seeded', 'C*-*'))):
     files = ', '.join(os.path.basename(f) for f in (m.get('files') or []))[:60]
     caught = [c for c, v in sorted(r.items()) if v.get('caught')]
     missed = [c for c, v in sorted(r.items()) if not v.get('caught')]
-    tgt = sid.split('-')[0].rstrip('abcdefghijklmnopqrstuvwxyz')
+    tgt = sid[:3]
     cls = ''
     if tgt in r and r[tgt].get('classes'): cls = r[tgt]['classes'][0][:70].replace('|', ' / ')
     elif caught and r[caught[0]].get('classes'): cls = r[caught[0]]['classes'][0][:70].replace('|', ' / ')
@@ -25,7 +25,7 @@ for d in sorted(glob.glob(os.path.join(ROOT, 'seeded', 'C*-*'))):
 print("| seeded change | what it breaks | file | caught at first try | caught now by | run, not caught | first class reported |")
 print("|---|---|---|---|---|---|---|")
 for s in rows: print("| %s | %s | %s | %s | %s | %s | %s |" % s[:7])
-n = len(rows); c = sum(1 for s in rows if s[0].split('-')[0].rstrip('abcdefghijklmnopqrstuvwxyz') in s[4].split(', '))
+n = len(rows); c = sum(1 for s in rows if s[0][:3] in s[4].split(', '))
 f = sum(1 for s in rows if s[3] == "yes")
 print("\n%d seeded changes: %d caught by the target property's quick check at the first try, %d after the strengthening described below." % (n, f, c))
 for k, v in sorted(FP["strengthened_because_of"].items()): print("* **%s** - %s" % (k, v))
